@@ -1,7 +1,7 @@
-(* C07 requests: 700..715. *)
+(* C07 requests: 700..716. *)
 From Coq Require Import List ZArith Bool.
 From PV Require Import lib.Sx lib.Str lib.Result.
-From PV Require Import model.DfxpXml model.DfxpRegion model.DfxpDoc model.DfxpSkel spec.SpecXmlAttr spec.SpecXmlDoc extract.OrCommon.
+From PV Require Import model.DfxpXml model.DfxpRegion model.DfxpDoc model.DfxpSkel model.DfxpSkelHead spec.SpecXmlAttr spec.SpecXmlDoc extract.OrCommon.
 Import ListNotations.
 Open Scope Z_scope.
 
@@ -142,6 +142,11 @@ Definition dispatch (code : Z) (arg : sx) : option sx :=
                                  of_list SS (s_style_refs s); of_list SS (s_region_refs s); of_bool (dom_single pl d)]
                      | _, _ => bad end
                  | _ => bad end)
+  | 716 => Some (match sx_listof (fun y => match y with          (* the style table -> the <style> dictionaries of the tree *)
+                                            | SL [SS id; c] => match sx_pairs c with Some c => Some (id, c) | None => None end
+                                            | _ => None end) arg with
+                 | Some table => of_list of_pairs (style_elems table)
+                 | None => bad end)
   | 714 => Some (match sx_skdoc arg with Some d => SS (dfxp_document d) | None => bad end)   (* the rendered document *)
   | 715 => Some (match arg with          (* a document text -> [accepted by the document machine; ns_ok; tt in TTML ns; elements] *)
                  | SS s => match doc_parse s with
